@@ -7,14 +7,14 @@ import core
 
 # (mode, number of runs) per tier; every job is one driver process writing several runs
 PLAN = {
-    "quick": [("ff", 28), ("apps", 16), ("fault", 16), ("race", 6), ("claim", 1)],
-    "thorough": [("ff", 150), ("apps", 80), ("fault", 100), ("race", 30), ("claim", 1)],
+    "quick": [("ff", 28), ("apps", 16), ("fault", 16), ("race", 6), ("claim", 1), ("phase", 6)],
+    "thorough": [("ff", 150), ("apps", 80), ("fault", 100), ("race", 30), ("claim", 1), ("phase", 14)],
 }
 RUNS_PER_JOB = {"quick": 2, "thorough": 5}
 
 # which modes carry evidence for which property (all traces are validated against all clauses)
 SERVES = {
-    "C01": ("ff", "apps", "claim"), "C02": ("ff", "apps"), "C11": ("ff", "apps"), "C12": ("ff", "apps"), "C13": ("apps", "ff"), "C15": ("apps", "ff"),
+    "C01": ("ff", "apps", "claim", "phase"), "C02": ("ff", "apps"), "C11": ("ff", "apps"), "C12": ("ff", "apps"), "C13": ("apps", "ff"), "C15": ("apps", "ff"),
     "C06": ("fault", "race"), "C05": None,
 }
 
@@ -35,8 +35,10 @@ def ring_results(tier):
         k = 0
         while k < n:
             m = min(per, n - k)
+            if mode == "phase":       # one job per seed; --runs is the number of phase steps per station
+                m = 1
             out = os.path.join(d, "%s_%03d.ndjson" % (mode, k))
-            jobs.append((["ring", "--mode", mode, "--tier", tier, "--seed", seed * 7919 + k, "--runs", m], out, mode))
+            jobs.append((["ring", "--mode", mode, "--tier", tier, "--seed", seed * 7919 + k, "--runs", (5 if tier == "quick" else 8) if mode == "phase" else m], out, mode))
             k += m
     core.run_drivers([(a, o) for a, o, _ in jobs])
     results = core.tlc_traces("TraceBus", "TraceBus.cfg", [o for _, o, _ in jobs])
